@@ -641,6 +641,50 @@ def rule_fixed_point(rep, idx):
              'recorded in the loop condition (operands computed earlier in the pass are stale)' % sorted(movers)) if bad else
             'movers %s, operand setters %s, flags %d: every exit state is clean' % (sorted(movers), sorted(opset), len(flagvars)),
             data={'movers': sorted(movers), 'opset': sorted(opset)})
+    # R1b: structure of one pass -- after the layout has been (re)assigned, the loop may only be left through the operand update
+    rep.rule('R1b', 'within one pass of the layout iteration, every path from a (re)assignment of offsets or label values to the exit of '
+             'the iteration passes through the statement that recomputes the label operands (no exit between layout and operand update)', floor=1)
+    region = None
+    body = children(outer)[1] if outer['kind'] == 'WhileStmt' else children(outer)[0]
+    for st in (children(body) if body['kind'] == 'CompoundStmt' else [body]):
+        qs = set()
+        for c in cast.calls_in(st):
+            g = idx.func_by_id.get(callee_of(c)[2]) if callee_of(c)[2] else None
+            if g is not None:
+                qs.add(g.qname)
+        if qs & opset:
+            region = st
+    layout_actions = set(q for q in movers if q.startswith('hexasm::Label::')) | {'hexasm::Directive::setByteOffset'}
+    if region is None:
+        raise AnalysisBroken('resolveLabels: statement that updates the label operands not found inside the iteration loop')
+    inside = set()
+    for c in cast.calls_in(region):
+        g = idx.func_by_id.get(callee_of(c)[2]) if callee_of(c)[2] else None
+        if g is not None and g.qname in layout_actions:
+            inside.add(g.qname)
+
+    class PassClient(flow.Client):
+        def enter(self_, n, s_):
+            if n is region:
+                return [False]
+            return [s_]
+
+        def expr(self_, e, s_):
+            for c in cast.calls_in(e):
+                g = idx.func_by_id.get(callee_of(c)[2]) if callee_of(c)[2] else None
+                if g is not None and g.qname in layout_actions:
+                    s_ = True
+            return [s_]
+    o2 = flow.Flow(PassClient(), idx).run(outer, {False})
+    exits_dirty = [x for x in o2.normal if x] + [x for x, _ in o2.ret if x]
+    if inside:
+        rep.add('R1b', 'resolveLabels:no-exit-between-layout-and-operands', True, pos(outer) + ' hexasm::CodeGen::resolveLabels',
+                'single-sweep structure (layout and operand update interleaved in one statement): decided by R1 only', nontrivial=False)
+    else:
+        rep.add('R1b', 'resolveLabels:no-exit-between-layout-and-operands', not exits_dirty, pos(region) + ' hexasm::CodeGen::resolveLabels',
+                'the iteration can be left after offsets/label values were reassigned without recomputing the label operands '
+                '(an instruction whose own offset moved keeps its old operand)' if exits_dirty else
+                'operand update at %s is on every path from the layout assignment to the loop exit' % pos(region))
     # semantic cross-check on the two-reference template of the design-time witness
     rep.rule('R1t', 'two dependent references (BR L1 / L1 / BR L2 / block(G) / L2): final operands are consistent for every gap class', floor=4)
     out = []
